@@ -1,8 +1,12 @@
 import IpldModel.Model.Term
 import IpldModel.Model.Cbor
 import IpldModel.Spec.CanonCbor
+import IpldModel.Spec.CborDenotes
 namespace Ipld.Driver
 open Ipld Ipld.Cbor
+
+/-- hex argument; "-" stands for the empty byte string -/
+def hexArg (s : String) : Option Bytes := if s == "-" then some [] else bytesOfHex s
 
 def showR (r : R DM) : String :=
   match r with
@@ -14,7 +18,7 @@ def parseCfg (flags : String) (budget prealloc depth : String) : Option DecCfg :
   let p ← prealloc.toNat?
   let d ← depth.toNat?
   pure { allowLinks := flags.contains 'l', relaxed := flags.contains 'r',
-         dontParseBeyondEnd := flags.contains 'e',
+         dontParseBeyondEnd := flags.contains 'e', negWrap := !flags.contains 'w',
          budget := if b = 0 then 10485760 else b,
          maxPrealloc := if p = 0 then 1024 else p,
          maxDepth := if d = 0 then 1024 else d }
@@ -44,13 +48,17 @@ def cborHandler : List String → Option String
     match parseTermAll toks with
     | none => some "bad-term"
     | some d => if encodable dagcborEnc d then some s!"ok {hexOfBytes (Spec.canonEncode d)}" else some "err unencodable"
+  | "cbor.denotes" :: hex :: toks =>
+    match hexArg hex, parseTermAll toks with
+    | some bs, some d => some (if Spec.denotesCheck d bs then "true" else "false")
+    | _, _ => some "bad-args"
   | ["cbor.dec", hex] =>
-    match bytesOfHex hex with
+    match hexArg hex with
     | none => some "bad-hex"
     | some bs => some (showR (decode dagcborDec bs))
   | ["cbor.dec"] => some (showR (decode dagcborDec []))
   | ["cbor.decx", flags, budget, prealloc, depth, hex] =>
-    match bytesOfHex hex, parseCfg flags budget prealloc depth with
+    match hexArg hex, parseCfg flags budget prealloc depth with
     | some bs, some cfg => some (showR (decode cfg bs))
     | _, _ => some "bad-args"
   | ["cbor.decx", flags, budget, prealloc, depth] =>
